@@ -106,7 +106,16 @@ def features(src, kinds):
     with_macro = any(_re.match(r"^\s*with!", ln) for ln in src.split("\n"))
     glued_cont = bool(_re.search(r"\S\\\n\S", src))
     kw_led = any(_re.match(r"^\s*[\w./~-]+\s+(not|is|in|if|or|and|else|for|while|with|as|lambda|del|from|import|return|yield)[-=]", ln) for ln in src.split("\n"))
-    f = {"triple_trailing": False, "with_macro_block": with_macro, "glued_continuation": glued_cont, "keyword_led_argument": kw_led, "glued_hash_after_bracket": glued, "assign_like_command": assign_like, "dangling_continuation": dangling, "macro": "macro" in kinds, "sub": "sub" in kinds, "cont": "\\\n" in src, "tabs": "\t" in src, "crlf": "\r" in src}
+    # an indented function-macro call whose parenthesis is still open at the end of its physical line
+    ml_macro = False
+    for ln in src.split("\n"):
+        m = _re.search(r"\w!\(", ln)
+        if m and ln[:1] in (" ", "\t") and not ln.rstrip().endswith("\\"):
+            rest = _re.sub(r"'[^']*'|\"[^\"]*\"", "", ln[m.end() - 1:])
+            rest = rest.split("#")[0] if "#" in rest else rest
+            if rest.count("(") > rest.count(")") or "#" in ln[m.end():]:
+                ml_macro = True
+    f = {"multiline_macro_in_block": ml_macro, "triple_trailing": False, "with_macro_block": with_macro, "glued_continuation": glued_cont, "keyword_led_argument": kw_led, "glued_hash_after_bracket": glued, "assign_like_command": assign_like, "dangling_continuation": dangling, "macro": "macro" in kinds, "sub": "sub" in kinds, "cont": "\\\n" in src, "tabs": "\t" in src, "crlf": "\r" in src}
     # a triple-quoted literal with blanks before one of its inner newlines
     for q in ("'''", '"""'):
         parts = src.split(q)
@@ -295,7 +304,7 @@ def describe(trace, matched):
 def slim(t):
     o = t["steps"][0]["obs"]
     f = t["feat"]
-    return {"feat": {k: bool(f.get(k)) for k in ("triple_trailing", "assign_like_command", "dangling_continuation", "glued_hash_after_bracket", "keyword_led_argument", "with_macro_block", "glued_continuation")}, "steps": [{"cmd": "format", "obs": {"accepted": o["accepted"], "same": bool(o["same_tree"] and o["comments_same"]), "idem": bool(o["idempotent"])}}]}
+    return {"feat": {k: bool(f.get(k)) for k in ("multiline_macro_in_block", "triple_trailing", "assign_like_command", "dangling_continuation", "glued_hash_after_bracket", "keyword_led_argument", "with_macro_block", "glued_continuation")}, "steps": [{"cmd": "format", "obs": {"accepted": o["accepted"], "same": bool(o["same_tree"] and o["comments_same"]), "idem": bool(o["idempotent"])}}]}
 
 
 def run(tier, seed, replay=None):
@@ -305,7 +314,7 @@ def run(tier, seed, replay=None):
     mc = {}
     if replay:
         payload = json.load(open(replay))["payload"]
-        scns = [{"src": payload["trace"]["src"], "feat": payload["trace"]["feat"], "cli": True}]
+        scns = [{"src": payload["trace"]["src"], "feat": features(payload["trace"]["src"], set()), "cli": True}]
     else:
         mc = tlc.model_check("FmtState", cfg_text=cfg_text, coverage=True, timeout=900)
         if mc.get("never_taken"):
